@@ -143,14 +143,14 @@ Theorem C10_reachable_states_are_valid :
 Proof. exact reachable_inv. Qed.
 Print Assumptions C10_reachable_states_are_valid.
 
-(* non-vacuity: a concrete history (two arrays, a plane on them, in-place tilt fit, two dft2 of the same shape,
-   the second into an output buffer) is reachable, fills the cache, and performs exactly the documented writes *)
+(* non-vacuity: a concrete history (two arrays, a plane on them, in-place tilt fit - which rebinds the plane's opd and
+   writes no buffer -, two dft2 of the same shape, the second into an output buffer) is reachable, fills the cache, and performs exactly the documented writes *)
 Example C10_nonvacuous :
   let K := mkkernels (fun c args _ => match args with a :: _ => map (Z.add c) a | [] => [c; c] end)
                      (fun _ _ _ => (1, 2)) (fun r => r + 1) in
   let ops := [ONewArr 4 false; ONewArr 4 false; OPlane 1 (Some 0%nat) (Some 1%nat) None 1; OFitTilt 2 true;
               ODft2 0 (2, 2, 2, 2) None false []; ODft2 0 (2, 2, 2, 2) (Some 1%nat) false []] in
   map (fun x => (o_status (snd (snd x)), o_writes (snd (snd x)))) (trace K init ops)
-    = [(0, []); (0, []); (0, []); (0, [1%nat]); (0, []); (0, [1%nat])] /\
+    = [(0, []); (0, []); (0, []); (0, []); (0, []); (0, [1%nat])] /\
   length (cache (fst (snd (last (trace K init ops) (init, ONewArr 0 false, (init, mkout 0 [] [] VNone)))))) = 1%nat.
 Proof. vm_compute. split; reflexivity. Qed.
